@@ -7,13 +7,13 @@ git diff -- operon_ai > /tmp/seed_$NAME.diff
 [ -s /tmp/seed_$NAME.diff ] || { echo "empty diff"; exit 9; }
 echo "== tests with change"; PYTHONPATH=$WT /venv/bin/python -m pytest -q -p no:cacheprovider -x tests 2>&1 | tail -1
 echo "== demo with change"; PYTHONPATH=$WT /venv/bin/python demo.py >/tmp/seed_$NAME.with 2>&1; W=$?; echo "exit $W"; tail -2 /tmp/seed_$NAME.with
-git stash -q -- operon_ai
+git apply -R /tmp/seed_$NAME.diff      # (not git stash: the stash is shared between worktrees)
 echo "== demo without change"; PYTHONPATH=$WT /venv/bin/python demo.py >/tmp/seed_$NAME.without 2>&1; WO=$?; echo "exit $WO"; tail -1 /tmp/seed_$NAME.without
-git stash pop -q
+git apply /tmp/seed_$NAME.diff
 D=/verif/seeded/$NAME; mkdir -p $D; cp /tmp/seed_$NAME.diff $D/patch.diff; cp demo.py $D/demo.py
 cd /verif
 KEEP=$(mktemp -d); cp -a evidence "$KEEP/"; trap 'rm -rf /verif/evidence; cp -a "$KEEP/evidence" /verif/evidence; rm -rf "$KEEP"' EXIT
 git -C /repo apply $D/patch.diff || { echo "apply failed"; exit 9; }
-echo "== check quick"; timeout 1800 ./check $P --tier quick > /tmp/seed_$NAME.check 2>&1; C=$?; echo "check exit $C"; grep -E "VIOLATION|UNDECIDED|CHECKER" /tmp/seed_$NAME.check | cut -c1-300
+echo "== check quick"; VERIF_EVIDENCE_DIR=$KEEP/scratch timeout 1800 ./check $P --tier quick > /tmp/seed_$NAME.check 2>&1; C=$?; echo "check exit $C"; grep -E "VIOLATION|UNDECIDED|CHECKER" /tmp/seed_$NAME.check | cut -c1-300
 git -C /repo checkout -- .
 echo "$P $NAME demo_with=$W demo_without=$WO check=$C"
